@@ -105,6 +105,9 @@ def run(pid, tier_, replay=None):
     nev, viol, obs = bp.run_bpobs(merged, timeout=1200 if quick else 6000)
     stats = bp.trace_stats(merged)
 
+    # 4b. white-box conformance: every recorded execution must be a behaviour of BatchProcessor.tla (BPTrace.tla)
+    conf = bp.run_bptrace(merged, timeout=900 if quick else 3000)
+
     # 5. results of the exhaustive runs
     mcs = [f.result() for f in mc_futs]
     pool.shutdown()
@@ -147,9 +150,13 @@ def run(pid, tier_, replay=None):
                         "script": sc["steps"][:25],
                         "trace": ["%s %s%s%s" % (e["ev"], e["c"], e["s"] and "@" + e["s"], e["e"] and " e%d" % e["e"] or "")
                                   for e in bp.scenario_events(merged, tr)[:40]]})
-    level = "model_checking" if not model_issues else "exploration"
+    drift = conf["accepted"] < conf["total"] or conf["errors"]
+    level = "model_checking" if not model_issues and not drift else "exploration"
     cov = dict(
-        states=states, transitions=trans, traces_validated_against_impl=len(stats), samples=samples,
+        states=states, transitions=trans, traces_validated_against_impl=conf["accepted"], samples=samples,
+        conformance=dict(spec="BPTrace.tla over BatchProcessor.tla", accepted=conf["accepted"], total=conf["total"],
+                         events=conf["events"], rejected=conf["rejected"][:5], errors=[e[-300:] for e in conf["errors"][:3]]),
+        traces_judged_by_bpobs=len(stats),
         evaluations=len(stats), distinct_nontrivial=len(sigs),
         rule="executions of the real processor (testing/synctest bubble, hook-gated schedules) from TLC-simulated "
              "behaviours of BPSim, a seeded script generator and fixed regression scenarios; each judged by BPObs.tla; "
@@ -167,11 +174,16 @@ def run(pid, tier_, replay=None):
         "violations are reported only from traces recorded from the real code (BPObs.tla)",
     ]
     rc = C.verdict(pid, found)
+    for rj in conf["rejected"][:5]:
+        print("DRIFT (not a verdict): BatchProcessor.tla does not explain event %s of execution %s (after %s)"
+              % (json.dumps(rj["rejected_event"]), all_sc[rj["rejected_tr"] - 1]["id"], ",".join(rj["context"][-3:])))
+    for er in conf["errors"][:2]:
+        print("DRIFT (not a verdict): BPTrace run failed: %s" % er[-400:].replace("\n", " | "))
     for mi in model_issues:
         print("MODEL-ISSUE (not a verdict): BatchProcessor.tla run %s" % mi)
     C.write_evidence(pid, tier_, level, cov, assumptions, len(found))
-    print("%s (%s): %d executions judged (%d events), %d distinct non-trivial; TLC %d distinct states / %d generated over %d configs; %d violations"
-          % (pid, TITLES[pid], len(stats), nev, len(sigs), states, trans, len(mcs), len(found)))
+    print("%s (%s): %d executions judged (%d events), %d distinct non-trivial; conformance %d/%d; TLC %d distinct states / %d generated over %d configs; %d violations"
+          % (pid, TITLES[pid], len(stats), nev, len(sigs), conf["accepted"], conf["total"], states, trans, len(mcs), len(found)))
     if model_issues and rc == 0:
         return 2
     return rc
